@@ -20,14 +20,17 @@ NOT_DECIDED = {
            'positivity for arbitrary models',
     'C08': 'numeric agreement with scipy, shapes for scalar/vector/matrix inputs, gradient = '
            'derivative',
-    'C09': 'NUTS tree building / U-turn / dual averaging correctness, moments on standard targets',
-    'C10': 'equality of the fast GP path with GPy, gradient = derivative, hyper-parameter '
-           'dependence',
-    'C11': 'acquisition gradients = derivatives, optimiser end points, schedule independence of '
-           'the fit',
+    'C09': 'NUTS and dual averaging as a correct sampler (only the pairing of tree ends, step '
+           'signs and the textbook shape of leapfrog / slice / U-turn test are decided), moments '
+           'on standard targets',
+    'C10': 'equality of the fast GP path with GPy for general input_dim and evidence size (the GP '
+           'equations and their derivatives are decided in the scalar specialisation only), '
+           'GPy itself, hyper-parameter dependence',
+    'C11': 'the numerical gradient of ExpIntVar (only its being taken of the class\'s own '
+           'evaluate is decided), optimiser end points, schedule independence of the fit',
     'C12': 'numeric equality with scipy metrics, the algebra of the batched Welford recurrence',
-    'C13': 'the weighted-variance and ESS formulas, monotonicity in alpha (arithmetic on '
-           'run-time values)',
+    'C13': 'monotonicity in alpha and rescale invariance of the quantile for all inputs '
+           '(arithmetic on run-time values)',
     'C14': 'equality of seeded outputs between original, copy and re-loaded model',
     'C15': 'distinctness of sub-seeds for all seeds (a loop-invariant argument about a PRNG '
            'stream) - only its necessary scaffolding is decided',
@@ -35,8 +38,8 @@ NOT_DECIDED = {
     'C17': 'least-squares optimality, affine invariance, numeric values',
     'C18': 'dtype handling, stdout parsing, subprocess behaviour',
     'C19': 'density integrates to one, orthonormality, numerical containment under rounding',
-    'C20': 'the unbiased-estimator and shrinkage formulas, whether each Jacobian branch is the '
-           'derivative of its back-transform (needs a CAS)',
+    'C20': 'the semi-parametric likelihood, the Warton / graphical-lasso estimators themselves '
+           '(library code), numerical stability of the formulas',
 }
 
 TECHNIQUE = {
@@ -57,11 +60,16 @@ TECHNIQUE = {
     'C08': 'static table agreement (pdf/mul, logpdf/add), domain agreement of product and '
            'override sets, column-order dataflow',
     'C09': 'static RNG provenance, guard dominance, polarity of the acceptance ratio, linear '
-           'index forms of allocation and warm-up slice',
+           'index forms of allocation and warm-up slice, pairing of NUTS tree ends with the '
+           'state they update, formula-shape patterns for leapfrog and slice',
     'C10': 'static argument-role/unit typestate for norm.logcdf, cache-field table agreement, '
-           'comparison roles of the bounds test',
+           'comparison roles of the bounds test, sibling agreement of fast and regular path on '
+           '`noiseless`, syntax-directed symbolic differentiation with exact rational-function '
+           'normalisation of the gradient formulas (no evaluation, no solver)',
     'C11': 'static taint/sanitiser analysis of acquire() return values over all overrides, '
-           'truncation-limit polarity, evidence pairing',
+           'truncation-limit polarity, evidence pairing, MRO pairing of evaluate / '
+           'evaluate_gradient, syntax-directed symbolic differentiation (exp, log, sqrt, normal '
+           'cdf, Owen T) with exact normal forms for the closed-form acquisition gradients',
     'C12': 'static dataflow of distance arguments, append-only history ownership, unit '
            'typestate of the adaptive scale, def-use ordering of the Welford update',
     'C13': 'static comparison-role, uniform-permutation and lock-step counter analysis',
@@ -76,9 +84,13 @@ TECHNIQUE = {
     'C18': 'static uniform-index analysis of the batch loop, copy-before-mutate, call ordering '
            'in run_external',
     'C19': 'static frame typestate (box/world), polarity of centre shifts, sibling agreement of '
-           'serial and parallel weight code',
+           'serial and parallel weight code, CFG must-pass rule for the line-search retract, '
+           'library-fact rule for scalar conversions',
     'C20': 'static space typestate (theta / theta-tilde) at transform call sites, case-table '
-           'agreement of the three helpers, polarity of the MH log-ratio',
+           'agreement of the three helpers, polarity of the MH log-ratio, exact rational-function '
+           '/ log-linear normal forms of the transform, Jacobian and unbiased-estimator formulas '
+           'read off the syntax tree (coefficient comparison, no evaluation, no solver), scale '
+           'typestate with a feasibility-filtered CFG path rule',
 }
 
 
